@@ -171,6 +171,20 @@ def c_remapper(kind):
     h.functions = ["litex.soc.interconnect.wishbone.Remapper.__init__"]
     return h
 
+def c_down_restart(dw_from, dw_to, aw=8):
+    """DownConverter after a cycle the master ABANDONED (cyc dropped without an acknowledge: bus time-out on the master side, withdrawn request - no assumption on
+    the master here): the next access starts with its first sub-word again, whatever happened before"""
+    r = dw_from // dw_to; LB = r.bit_length() - 1
+    m = wishbone.Interface(data_width=dw_from, adr_width=aw); s = wishbone.Interface(data_width=dw_to, adr_width=aw + LB)
+    d = mk(wishbone.DownConverter, m, s)
+    h = HwCheck(f"wishbone.DownConverter({dw_from}->{dw_to}).restart", d, m_inputs(m) + s_inputs(s))
+    rq = req(h, m); sreq = req(h, s); full = h.v(m.sel) == K((1 << (dw_from // 8)) - 1, dw_from // 8)
+    h.ensure_seq("ens.restart-at-the-first-sub-word", lambda at: z3.Implies(z3.And(at(z3.Not(b(h.v(m.cyc))), 0), at(z3.And(rq, full), 1)),
+                                                                          at(z3.And(sreq, z3.Extract(LB - 1, 0, h.v(s.adr)) == K(0, LB), z3.Extract(aw + LB - 1, LB, h.v(s.adr)) == h.v(m.adr)), 1)))
+    h.cover("cover.request-after-idle", z3.And(rq, full, sreq), depth=2)
+    h.functions = ["litex.soc.interconnect.wishbone.DownConverter.__init__ (sub-word counter reset)"]
+    return h
+
 def c_wb2csr(register, addressing="word"):
     wb = wishbone.Interface(data_width=32, adr_width=30 if addressing == "word" else 32, addressing=addressing); cs = csr_bus.Interface(data_width=32, address_width=14)
     d = mk(wishbone.Wishbone2CSR, wb, cs, register)
@@ -209,7 +223,7 @@ def c_wb2csr(register, addressing="word"):
 def cases(tier):
     cs = [Case("SRAM(8x32)", c_sram, 8), Case("SRAM(4x32,ro)", c_sram, 4, 32, True, [0x11223344, 0xa5a5a5a5, 0, 0xdeadbeef]),
           Case("SRAM(4x32,init)", c_sram, 4, 32, False, [0x11223344, 0xa5a5a5a5, 0x01020304]), Case("SRAM(4x64)", c_sram, 4, 64),
-          Case("DownConverter(32->16)", c_down, 32, 16), Case("DownConverter(32->8)", c_down, 32, 8), Case("DownConverter(64->32)", c_down, 64, 32),
+          Case("DownConverter(32->16)", c_down, 32, 16), Case("DownConverter(32->8)", c_down, 32, 8), Case("DownConverter(64->32)", c_down, 64, 32), Case("DownConverter(64->32).restart", c_down_restart, 64, 32), Case("DownConverter(32->8).restart", c_down_restart, 32, 8),
           Case("UpConverter(16->32)", c_up, 16, 32), Case("UpConverter(8->32)", c_up, 8, 32), Case("Converter(32->64)", c_up, 32, 64, 8, True), Case("Converter(32->32)", c_same_width),
           Case("Remapper(origin)", c_remapper, "origin"), Case("Remapper(regions)", c_remapper, "regions"), Case("Remapper(both)", c_remapper, "both"), Case("Remapper(regions-unaligned)", c_remapper, "regions-unaligned"),
           Case("Wishbone2CSR(register=True)", c_wb2csr, True), Case("Wishbone2CSR(register=False)", c_wb2csr, False), Case("Wishbone2CSR(register=True,byte)", c_wb2csr, True, "byte")]
